@@ -57,7 +57,7 @@ def run(ctx):
 
         def seeded(kind, count):
             p = ctx.vh(["publish", "seeded", kind, str(count)])
-            for line in p.stdout.decode().splitlines():
+            for line in p.stdout.decode().split("\n"):
                 if line.strip():
                     fh.write(line + "\n")
                     n[0] += 1
